@@ -2451,6 +2451,7 @@ class Signature(object):
             txid = txid.hex()
         if len(txid) > 64:
             txid = double_sha256(bytes.fromhex(txid), as_hex=True)
+        txid = txid.lower()  # the RFC6979 nonce is derived from this string: same hash must result in same signature
         if not isinstance(private, (Key, HDKey)):
             private = HDKey(private)
         pub_key = private.public()
